@@ -373,11 +373,11 @@ static std::string shl_num(Rng &rng, G &g, int o, int which = -1) {
         }
     };
     switch (which) {
-    case 0: { int v = (int)(uint32_t)pick64(true); if (v == INT_MIN) v = INT_MIN + 1; kind = "int"; val = S(v); snprintf(buf, sizeof buf, "%d", v); break; }
+    case 0: { int v = (int)(uint32_t)pick64(true); if (rng.chance(1, 12)) v = INT_MIN; kind = "int"; val = S(v); snprintf(buf, sizeof buf, "%d", v); break; }
     case 1: { unsigned v = (unsigned)pick64(false); kind = "uint"; val = U(v); snprintf(buf, sizeof buf, "%u", v); break; }
-    case 2: { long v = (long)pick64(true); if (v == LONG_MIN) v = LONG_MIN + 1; if (rng.chance(1, 2)) v = -v; kind = "long"; val = S(v); snprintf(buf, sizeof buf, "%ld", v); break; }
+    case 2: { long v = (long)pick64(true); if (v != LONG_MIN && rng.chance(1, 2)) v = -v; if (rng.chance(1, 12)) v = LONG_MIN; kind = "long"; val = S(v); snprintf(buf, sizeof buf, "%ld", v); break; }
     case 3: { unsigned long v = pick64(false); kind = "ulong"; val = U(v); snprintf(buf, sizeof buf, "%lu", v); break; }
-    case 4: { long long v = (long long)pick64(true); if (v == LLONG_MIN) v = LLONG_MIN + 1; if (rng.chance(1, 2)) v = -v; kind = "llong"; val = S(v); snprintf(buf, sizeof buf, "%lld", v); break; }
+    case 4: { long long v = (long long)pick64(true); if (v != LLONG_MIN && rng.chance(1, 2)) v = -v; if (rng.chance(1, 12)) v = LLONG_MIN; kind = "llong"; val = S(v); snprintf(buf, sizeof buf, "%lld", v); break; }
     case 5: { unsigned long long v = pick64(false); kind = "ullong"; val = U(v); snprintf(buf, sizeof buf, "%llu", v); break; }
     case 6: { static const float fv[] = {0.0f, -0.0f, 1.0f, -1.5f, 0.1f, 3.4028235e38f, 1.17549435e-38f, 1e-45f, 123456.0f, 1234567.0f, INFINITY, -INFINITY, 16777216.0f};
               float v = rng.chance(1, 2) ? fv[rng.below(13)] : (float)((double)(int64_t)rng.next() / 1e9);
